@@ -436,5 +436,5 @@ def shard(ctx: Ctx):
     for k, T in enumerate(PATTERNS):
         if k % ctx.nshards == ctx.shard:
             ctx.add(evaluate(T, ctx, 'patterns'))
-    hyp_run(ctx, 'text', texts(), lambda T: evaluate(T, ctx, 'sampled'), 10 if quick else 1500)
-    hyp_run(ctx, 'indented', indented_texts(), lambda T: evaluate(T, ctx, 'indented'), 10 if quick else 1500)
+    hyp_run(ctx, 'text', texts(), lambda T: evaluate(T, ctx, 'sampled'), 10 if quick else 400)
+    hyp_run(ctx, 'indented', indented_texts(), lambda T: evaluate(T, ctx, 'indented'), 10 if quick else 400)
